@@ -21,6 +21,9 @@ func runC11(c *mon.Ctx) {
 		if i%4 == 0 {
 			c11Concurrent(c, r.Fork(2))
 		}
+		if i%8 == 5 {
+			c11LongTimer(c, r.Fork(3))
+		}
 	})
 }
 
@@ -767,4 +770,42 @@ func c11CloneRef(ref map[string]*c11Metric) map[string]*c11Metric {
 		out[k] = &n
 	}
 	return out
+}
+
+// c11LongTimer: one timer of a test scope records 65,537-70,000 durations
+// (passes in between); the snapshot shows every one of them, in order.
+func c11LongTimer(c *mon.Ctx, r *mon.Rand) {
+	ts := vNewTest("", nil, uint(r.Range(0, 2)))
+	sc := tally.Scope(ts)
+	if r.Bool() {
+		sc = ts.SubScope("long")
+	}
+	tm := sc.Timer("t")
+	n := r.Range(65537, 70000)
+	for k := 0; k < n; k++ {
+		tm.Record(time.Duration(k))
+		if k%20000 == 19999 {
+			tally.VerifReportPass(ts)
+		}
+	}
+	checked := false
+	for _, t := range ts.Snapshot().Timers() {
+		vals := t.Values()
+		checked = true
+		bad := len(vals) != n
+		for k := 0; !bad && k < n; k++ {
+			bad = vals[k] != time.Duration(k)
+		}
+		if bad {
+			first := time.Duration(-1)
+			if len(vals) > 0 {
+				first = vals[0]
+			}
+			c.Violation("snapshot-timer-values", map[string]interface{}{"why": fmt.Sprintf("a timer recorded %d durations 0ns, 1ns, 2ns, ...; the snapshot holds %d values starting with %v", n, len(vals), first)})
+		}
+	}
+	if !checked {
+		c.Violation("snapshot-entry-count", map[string]interface{}{"why": "the snapshot has no timer entry for a timer with tens of thousands of recordings"})
+	}
+	c.Event("long-timer-recordings", int64(n))
 }
